@@ -68,6 +68,15 @@ type pathFacts struct {
 // enumeratePaths lists every acyclic path from the entry block to target
 // (each block at most once). complete=false if the limit was hit.
 func enumeratePaths(fn *ssa.Function, target *ssa.BasicBlock, limit int) (out []pathFacts, complete bool) {
+	if len(fn.Blocks) == 0 {
+		return nil, true
+	}
+	return enumeratePathsFrom(fn, fn.Blocks[0], target, limit)
+}
+
+// enumeratePathsFrom lists every acyclic path start -> target; target may be a
+// loop header that dominates start (the path then ends with the back edge).
+func enumeratePathsFrom(fn *ssa.Function, start, target *ssa.BasicBlock, limit int) (out []pathFacts, complete bool) {
 	complete = true
 	onPath := map[*ssa.BasicBlock]bool{}
 	var blocks []*ssa.BasicBlock
@@ -127,8 +136,30 @@ func enumeratePaths(fn *ssa.Function, target *ssa.BasicBlock, limit int) (out []
 			facts = facts[:n]
 		}
 	}
-	if len(fn.Blocks) > 0 && canReach[fn.Blocks[0]] {
-		dfs(fn.Blocks[0])
+	if start == target {
+		// paths that leave start and come back to it
+		blocks = append(blocks, start)
+		onPath[start] = false
+		iff, isIf := start.Instrs[len(start.Instrs)-1].(*ssa.If)
+		for i, s := range start.Succs {
+			if !canReach[s] {
+				continue
+			}
+			n := len(facts)
+			if isIf && start.Succs[0] != start.Succs[1] {
+				m := map[Fact]bool{}
+				addCondFacts(m, iff.Cond, i == 0)
+				for f := range m {
+					facts = append(facts, f)
+				}
+			}
+			dfs(s)
+			facts = facts[:n]
+		}
+		return out, complete
+	}
+	if canReach[start] {
+		dfs(start)
 	}
 	return out, complete
 }
